@@ -1,6 +1,6 @@
 #!/bin/bash
 # usage: tools/applyfix.sh <diff> "<commit message>" <pkg>...
-set -e
+set -e -o pipefail
 diff=$1; msg=$2; shift 2
 cd /repo
 git apply --check "$diff"
